@@ -92,18 +92,41 @@ func (m *MemoryTableSource) encodeRow(row map[string]any) []any {
 	return vals
 }
 
+// joinKeySep separates the parts of a composite join key.
+const joinKeySep = "\x1f"
+
 // encodeKey serializes a lookup key into a stable, type-tagged string so that
 // 1 (int) and "1" (string) never collide. Accepts a single value or a
-// []any tuple.
+// []any tuple. Every part is escaped before joining (see escapeJoinKeyPart), so
+// a string component that contains joinKeySep cannot shift bytes into the next
+// component: tuples match only when every component matches. A single value
+// encodes like the one-element tuple.
 func encodeKey(key any) string {
 	if vals, ok := key.([]any); ok {
 		parts := make([]string, len(vals))
 		for i, v := range vals {
-			parts[i] = encodeOne(v)
+			parts[i] = escapeJoinKeyPart(encodeOne(v))
 		}
-		return strings.Join(parts, "\x1f")
+		return strings.Join(parts, joinKeySep)
 	}
-	return encodeOne(key)
+	return escapeJoinKeyPart(encodeOne(key))
+}
+
+// escapeJoinKeyPart puts a backslash before every backslash and every joinKeySep
+// of an encoded key part. Parts without these bytes are returned unchanged.
+func escapeJoinKeyPart(s string) string {
+	if !strings.ContainsAny(s, "\\"+joinKeySep) {
+		return s
+	}
+	var b strings.Builder
+	b.Grow(len(s) + 2)
+	for i := 0; i < len(s); i++ {
+		if s[i] == '\\' || s[i] == joinKeySep[0] {
+			b.WriteByte('\\')
+		}
+		b.WriteByte(s[i])
+	}
+	return b.String()
 }
 
 func encodeOne(v any) string {
